@@ -17,14 +17,17 @@ args = sys.argv[1:]
 suite = "--no-suite" not in args
 own_only = "--own-only" in args          # run the property's own check, plus only the neighbour known to be the one that reports it
 skip_done = "--skip-done" in args        # skip seeds whose meta.json was already written by this version against the current HEAD
+offset = 0
+if "--offset" in args:                   # numbering offset for later waves: patch.diff -> <ID>-<offset+1>
+    i = args.index("--offset"); offset = int(args[i + 1]); del args[i:i + 2]
 args = [a for a in args if a not in ("--no-suite", "--own-only", "--skip-done")]
-SPECIAL = {"C01-2": ["C04", "C11"], "C08-2": ["C34"], "C25-2": ["C28"], "C12-2": ["C06"]}
+SPECIAL = {"C01-2": ["C04", "C11"], "C08-2": ["C34"], "C25-2": ["C28"], "C12-2": ["C06"], "C12-3": ["C06"], "C12-4": ["C09"], "C35-4": ["C40"]}
 HEAD = subprocess.check_output(["git", "-C", "/repo", "rev-parse", "--short", "HEAD"], text=True).strip()
 src = args[0]
 ids = args[1:] or sorted(os.listdir(src))
 reg = set(json.load(open(f"{VERIF}/MANIFEST.json"))["checks"][i]["property_id"] for i in range(len(json.load(open(f"{VERIF}/MANIFEST.json"))["checks"])))
 for pid in ids:
-    for n, (pf, df) in enumerate([("patch.diff", f"demo_{pid}.py"), ("patch2.diff", f"demo2_{pid}.py")], 1):
+    for n, (pf, df) in enumerate([("patch.diff", f"demo_{pid}.py"), ("patch2.diff", f"demo2_{pid}.py")], 1 + offset):
         patch = os.path.join(src, pid, pf); demo = os.path.join(src, pid, df)
         if not os.path.exists(patch):
             continue
